@@ -8,6 +8,7 @@
 From Coq Require Import String NArith ZArith List Bool.
 From V Require Import Base.Bytes Base.GoInt TLS.TlsModel gen.CtTypes CT.Rfc6962Spec CT.Rfc6962Proofs CT.CtFuncs
   Client.ClientModel Client.ClientSpec Client.ClientCodec Client.ClientProofs Client.ShardProofs.
+From V Require Import gen.Client Client.ClientGenTie.
 From V Require TLS.TlsCase.
 Import ListNotations.
 
@@ -370,3 +371,27 @@ Example temporal_sharded_example :
   run 150%Z = (Some 1%nat, COk {| s_version := 0; s_logid := ex_kh; s_ts := 1234; s_ext := []; s_sig := ex_ds |})
   /\ fst (run 100%Z) = Some 1%nat /\ fst (run 99%Z) = Some 0%nat /\ run 200%Z = (None, CPlainErr).
 Proof. vm_compute. repeat split; reflexivity. Qed.
+
+(* the status tests of jsonclient as they stand today (translated on every run): for a response that was read and
+   closed, GetAndParse answers an RspError with status and body unless the status is 200, and PostAndParse parses
+   the body exactly when it is - the model's get_and_parse / post_and_parse restated through the generated tests *)
+Theorem status_tests_as_in_source : forall F (r : response F),
+  r_close_ok r = true -> r_read_ok r = true ->
+  get_and_parse (Resp r) =
+    (if get_status_error_gen (r_status r) then CRspErr (r_status r) (r_body r)
+     else match r_json r with
+          | None => CRspErr (r_status r) (r_body r)
+          | Some f => COk (r_status r, r_body r, f)
+          end) /\
+  (r_post r = true ->
+   post_and_parse (Resp r) =
+     if post_parses_gen (r_status r) then
+       match r_json r with
+       | None => CRspErr (r_status r) (r_body r)
+       | Some f => COk (r_status r, r_body r, Some f)
+       end
+     else COk (r_status r, r_body r, None)).
+Proof.
+  intros F r Hc Hr. split; [exact (get_and_parse_status_gen r Hc Hr)|intros Hp; exact (post_and_parse_status_gen r Hc Hr Hp)].
+Qed.
+Print Assumptions status_tests_as_in_source.
